@@ -92,6 +92,9 @@ func worker(id, tier string, shard, n int, out string) int {
 		}
 	}
 	hang := 300 * time.Second
+	if p.HangSeconds > 0 {
+		hang = time.Duration(p.HangSeconds) * time.Second
+	}
 	if s := os.Getenv("MC_HANG_S"); s != "" {
 		if v, err := strconv.Atoi(s); err == nil {
 			hang = time.Duration(v) * time.Second
